@@ -934,6 +934,9 @@ fn evaluate(plan: &PlanB, kernel: &Arc<Kernel>, sh: &Sh, sent_at_ns: &[u64], _en
             if Some(q.dst.ip()) == plan.lan4_alias.map(IpAddr::V4) {
                 res.probe("C07.query_to_secondary_local_address");
             }
+            if plan.listeners.iter().any(|l| l == "bind-interfaces") {
+                res.probe("C07.response_from_per_address_socket_of_bind_addresses_interfaces");
+            }
             if q.dst.is_ipv4() && !plan.listeners.iter().any(|l| l == "default") {
                 res.probe("C07.response_sent_from_ipv4_only_listener");
             }
